@@ -38,4 +38,22 @@ static inline uint32_t ll2c_ctlz32(uint32_t x) { return x ? (uint32_t)__builtin_
 #define LL2C_CTTZ32(x) ll2c_cttz32(x)
 #define LL2C_CTLZ64(x) ll2c_ctlz64(x)
 #define LL2C_CTLZ32(x) ll2c_ctlz32(x)
+/* floating-point binary operations: precise IEEE by default; with -DLL2C_FP_ABSTRACT every double operation is a call of a
+   contract function supplied by the harness (assume/guarantee at the level of single IEEE operations) */
+#ifdef LL2C_FP_ABSTRACT
+double ll2c_abs_fadd(double, double); double ll2c_abs_fsub(double, double); double ll2c_abs_fmul(double, double); double ll2c_abs_fdiv(double, double);
+#define LL2C_FADD(a,b) ll2c_abs_fadd(a,b)
+#define LL2C_FSUB(a,b) ll2c_abs_fsub(a,b)
+#define LL2C_FMUL(a,b) ll2c_abs_fmul(a,b)
+#define LL2C_FDIV(a,b) ll2c_abs_fdiv(a,b)
+#else
+#define LL2C_FADD(a,b) ((a) + (b))
+#define LL2C_FSUB(a,b) ((a) - (b))
+#define LL2C_FMUL(a,b) ((a) * (b))
+#define LL2C_FDIV(a,b) ((a) / (b))
+#endif
+#define LL2C_FADDF(a,b) ((a) + (b))
+#define LL2C_FSUBF(a,b) ((a) - (b))
+#define LL2C_FMULF(a,b) ((a) * (b))
+#define LL2C_FDIVF(a,b) ((a) / (b))
 #endif
